@@ -72,10 +72,58 @@ def bound_cmp_evaluator(is_bound, point, var_pred=None):
     return ev
 
 
+def _tail_ids(n, out):
+    """ids of the nodes whose value is the value of `n` (block tails, both arms of a tail if / match)"""
+    n = peel(n)
+    if not isinstance(n, dict):
+        return
+    out.add(id(n))
+    k = n.get("k")
+    if k == "Block" and "expr" in n:
+        _tail_ids(n["expr"], out)
+    elif k == "If":
+        _tail_ids(n["then"], out)
+        if "else" in n:
+            _tail_ids(n["else"], out)
+    elif k == "Match" and n.get("src") not in ("TryDesugar", "ForLoopDesugar"):
+        for a in n["arms"]:
+            _tail_ids(a["body"], out)
+    elif k == "Ret" and "e" in n:
+        _tail_ids(n["e"], out)
+
+
+def _value_kind(n):
+    """'err' / 'ok' / 'none' when the value of this (non-diverging) branch is syntactically Err(..) / Ok(..) / None on every tail"""
+    n = peel(n)
+    if not isinstance(n, dict):
+        return None
+    k = n.get("k")
+    if k == "Block":
+        return _value_kind(n["expr"]) if "expr" in n else None
+    if k == "Call" and path_ends(n.get("callee"), ("Result::Err", "Err")):
+        return "err"
+    if k == "Call" and path_ends(n.get("callee"), ("Result::Ok", "Ok")):
+        return "ok"
+    if k == "Path" and path_ends(n.get("path"), ("Option::None", "None")):
+        return "none"
+    if k == "If" and "else" in n:
+        a, b = _value_kind(n["then"]), _value_kind(n["else"])
+        return a if a == b else None
+    return None
+
+
 def guarded_exits(root):
     """yield (if_node, cond, polarity_that_exits, exit_kind, parents) for every `if` one of whose
     branches diverges (closures are entered: a guard inside a closure body counts for the
-    closure's own control flow)"""
+    closure's own control flow).  An `if` in value position of the function result (tail expression or `return` operand) one of
+    whose branches IS the Err(..) / None result counts the same: `if ok { Ok(v) } else { Err(e) }` rejects when !ok."""
+    tails = set()
+    _tail_ids(root, tails)
+    for n, ps in walk(root):
+        if n.get("k") == "Ret" and "e" in n:
+            _tail_ids(n["e"], tails)
+        if n.get("k") == "Closure":
+            _tail_ids(n.get("body"), tails)
     for n, ps in walk(root):
         if n.get("k") != "If":
             continue
@@ -83,6 +131,12 @@ def guarded_exits(root):
             yield n, n["cond"], True, exit_kind(n["then"]), ps
         elif "else" in n and diverges(n["else"]):
             yield n, n["cond"], False, exit_kind(n["else"]), ps
+        elif "else" in n and id(n) in tails:
+            a, b = _value_kind(n["then"]), _value_kind(n["else"])
+            if a in ("err", "none") and b != a:
+                yield n, n["cond"], True, a, ps
+            elif b in ("err", "none") and a != b:
+                yield n, n["cond"], False, b, ps
 
 
 def mentions(node, pred):
